@@ -468,7 +468,42 @@ def c_ctor_fresh(ctx, args):
     return None
 
 
-CHECKS = {'ctor_fresh': c_ctor_fresh, 'copy': c_copy, 'query': c_query, 'inplace': c_inplace, 'torch_copy': c_torch_copy}
+def c_empties(ctx, args):
+    """the degenerate ends of every quantifier: empty lists, empty circuits, zero samples, empty regions -- operations return the empty / unchanged result and modify nothing"""
+    n, seed = args
+    rng = __import__('random').Random(seed)
+    e = NP.PL([], 2 * n)
+    st = NP.STATE(gen.rtableau(rng, ctx.model, n))
+    m = NP.CM(gen.rmap(rng, ctx.model, n))
+    l = NP.PL(gen.rplist(rng, n, 3))
+    s_st, s_m, s_l = snap(st), snap(m), snap(l)
+    steps = [
+        ('rotate an empty list', lambda: len(NP.oPL(e.copy().rotate_by(NP.P(gen.rpauli(rng, n, herm=True))) or e)) == 0),
+        ('transform an empty list', lambda: len(NP.oPL(e.copy().transform_by(m) or e)) == 0),
+        ('negate an empty list', lambda: len(NP.oPL(-e)) == 0),
+        ('expect of an empty list', lambda: len(st.expect(e)) == 0),
+        ('measure an empty list', lambda: (lambda r: len(r[0]) == 0 and float(r[1]) == 0.0)(st.measure(e))),
+        ('entropy of the empty region', lambda: int(st.entropy([])) == 0),
+        ('sample(0)', lambda: len(st.sample(0)) == 0),
+        ('empty circuit forward', lambda: NP.oPL(pc.identity_circuit(n).forward(l.copy())) == NP.oPL(l)),
+        ('empty circuit backward', lambda: NP.oPL(pc.identity_circuit(n).backward(l.copy())) == NP.oPL(l)),
+        ('empty circuit compiled', lambda: (lambda c: (c.compile(), NP.oPL(c.forward(l.copy())) == NP.oPL(l))[1])(pc.identity_circuit(n))),
+        ('empty circuit on a state', lambda: (lambda s2: snap(pc.identity_circuit(n).forward(s2)) == s_st)(st.copy())),
+        ('zero polynomial product', lambda: len((pc.pauli([1] * n) - pc.pauli([1] * n)) @ pc.pauli([3] * n)) == 0),
+    ]
+    for name, f in steps:
+        try:
+            ok = f()
+        except Exception as ex:
+            return {'kind': 'oracle', 'where': 'np:%s raised %s' % (name, type(ex).__name__), 'observed': str(ex)[:120], 'expected': 'the empty / unchanged result', 'tags': ['empties']}
+        if not ok:
+            return {'kind': 'oracle', 'where': 'np:%s does not give the empty / unchanged result' % name, 'observed': 'see check', 'expected': 'empty / unchanged', 'tags': ['empties']}
+        if (snap(st), snap(m), snap(l)) != (s_st, s_m, s_l):
+            return {'kind': 'oracle', 'where': 'np:%s modified an object it was only given to read' % name, 'observed': 'state / map / list changed', 'expected': 'unchanged', 'tags': ['empties']}
+    return None
+
+
+CHECKS = {'empties': c_empties, 'ctor_fresh': c_ctor_fresh, 'copy': c_copy, 'query': c_query, 'inplace': c_inplace, 'torch_copy': c_torch_copy}
 
 
 def run(ctx):
@@ -498,3 +533,5 @@ def run(ctx):
         for what in ['rotation_map', 'identity_map', 'zero_state', 'mixed_state', 'ghz_state', 'stabilizer_state', 'named_gate', 'rotation_gate', 'pauli']:
             for _ in range(max(3, int(3 * B))):
                 do(ctx, 'ctor_fresh', [be, what, rng.randint(1, 3), rng.randrange(10 ** 6)], nontrivial=('cf', be, what, ctx.res.evaluations))
+    for _ in range(max(4, int(4 * B))):
+        do(ctx, 'empties', [rng.randint(1, 3), rng.randrange(10 ** 6)], nontrivial=('em', ctx.res.evaluations))
